@@ -104,8 +104,11 @@ pub fn check_registration(es: &[Entry]) -> Vec<Violation> {
     // reachable under its keyword through its first template; the chosen function is the right one
     for e in es {
         let text = e.templates[0].replace("{n}", "7").replace("{w}", "bob").replace("{f}", "1.5").replace("{q}", "\"hi\"").replace("{c}", "red").replace("{x}", "it");
+        // an attribute written on two functions makes its text ambiguous: both are registered
+        let n_same = es.iter().filter(|o| o.kw == e.kw && regex::Regex::new(o.re).is_ok_and(|r| r.is_match(&text))).count();
         match coll.find(&step(e.kw, &text)) {
-            Ok(Some(_)) => {}
+            Ok(Some(_)) if n_same == 1 => {}
+            Err(amb) if n_same >= 2 && amb.possible_matches.len() == n_same => {}
             other => viol.push(v("not-reachable", format!("`{}` ({:?}) is not reachable through `{text}`: {:?}", e.func, e.kw, other.map(|o| o.is_some()).map_err(|e| e.to_string())))),
         }
     }
@@ -176,4 +179,125 @@ fn check_with(t: &mut Tape, es: &[Entry], coll: &cucumber::step::Collection<ZW>,
     labels.sort_unstable();
     labels.dedup();
     Out { violations: viol, nontrivial, labels, sample: json!({"steps": rows}) }
+}
+
+// ------------------------------------------------------------------------------------------
+// C10 through the attribute macros: a step *returning* `Err` (every spelling of the return type in
+// the zoo) run by the real runner must become a Failed event carrying the error's text, stop the
+// scenario there, and leave the rest of the run untouched.
+
+/// (keyword type, text that errs, text that passes, error text)
+const FALLIBLE: &[(StepType, &str, &str, &str)] = &[
+    (StepType::Then, "result err", "result ok", "zoo-err"),
+    (StepType::When, "async result err", "async result ok", "zoo-async-err"),
+    (StepType::Then, "alias result err", "alias result ok", "zoo-alias-err"),
+    (StepType::Given, "io result err", "io result ok", "zoo-io-err"),
+    (StepType::When, "boxed result err", "boxed result ok", "zoo-boxed-err"),
+];
+
+pub fn check_macro_step_errors(t: &mut Tape, prefix: &str) -> (Vec<Violation>, Value) {
+    use cucumber::{Runner as _, event, runner};
+    use futures::StreamExt as _;
+    let vio = |sig: &str, msg: String| Violation::new(format!("{prefix}/{sig}"), msg);
+    // 1..3 scenarios of 1..4 fallible steps each; each step errs with probability 1/3
+    let nsc = t.range(1, 3);
+    let mut plan: Vec<Vec<(usize, bool)>> = vec![];
+    let mut scenarios = vec![];
+    let mut line = 2;
+    for si in 0..nsc {
+        let ns = t.range(1, 4);
+        let steps_plan: Vec<(usize, bool)> = (0..ns).map(|_| (t.pick(FALLIBLE.len()), t.rare(1, 3))).collect();
+        let steps: Vec<gherkin::Step> = steps_plan
+            .iter()
+            .enumerate()
+            .map(|(i, (k, errs))| {
+                let (ty, bad, good, _) = FALLIBLE[*k];
+                let kw = match ty {
+                    StepType::Given => "Given ",
+                    StepType::When => "When ",
+                    StepType::Then => "Then ",
+                };
+                gherkin::Step { keyword: kw.into(), ty, value: (if *errs { bad } else { good }).into(), docstring: None, table: None, span: gherkin::Span::default(), position: gherkin::LineCol { line: line + 1 + i, col: 5 } }
+            })
+            .collect();
+        scenarios.push(gherkin::Scenario { keyword: "Scenario".into(), name: format!("M{si}"), description: None, steps, examples: vec![], tags: vec![], span: gherkin::Span::default(), position: gherkin::LineCol { line, col: 3 } });
+        line += ns + 2;
+        plan.push(steps_plan);
+    }
+    let feature = gherkin::Feature {
+        keyword: "Feature".into(),
+        name: "macro errors".into(),
+        description: None,
+        background: None,
+        scenarios,
+        rules: vec![],
+        tags: vec![],
+        span: gherkin::Span::default(),
+        position: gherkin::LineCol { line: 1, col: 1 },
+        path: None,
+    };
+    let conc = [Some(1), Some(2), None][t.pick(3)];
+    let r = runner::Basic::<ZW>::default().steps(ZW::collection()).max_concurrent_scenarios(conc);
+    let items: Vec<cucumber::parser::Result<gherkin::Feature>> = vec![Ok(feature)];
+    let res = std::panic::catch_unwind(std::panic::AssertUnwindSafe(|| block_on(r.run(futures::stream::iter(items), runner::basic::Cli::default()).collect::<Vec<_>>())));
+    crate::lab::driver::install_probe_hook();
+    let sample = json!({"macro_error_plan": plan.iter().map(|p| p.iter().map(|(k, e)| format!("{}:{}", FALLIBLE[*k].1.trim_end_matches(" err"), if *e { "err" } else { "ok" })).collect::<Vec<_>>()).collect::<Vec<_>>()});
+    let events = match res {
+        Ok(e) => e,
+        Err(p) => {
+            let m = p.downcast_ref::<String>().cloned().or_else(|| p.downcast_ref::<&str>().map(|s| (*s).to_string())).unwrap_or_default();
+            return (vec![vio("escaped", format!("an error returned by a macro-defined step escaped the run as a panic: {m}"))], sample);
+        }
+    };
+    // observed per scenario: list of (text, outcome)
+    let mut seen: std::collections::BTreeMap<String, Vec<(String, String)>> = std::collections::BTreeMap::new();
+    let mut finished: std::collections::BTreeMap<String, usize> = std::collections::BTreeMap::new();
+    let mut run_finished = 0;
+    for e in &events {
+        let Ok(ev) = e else { continue };
+        match &ev.value {
+            event::Cucumber::Finished => run_finished += 1,
+            event::Cucumber::Feature(_, event::Feature::Scenario(sc, rs)) => match &rs.event {
+                event::Scenario::Step(st, se) => {
+                    let o = match se {
+                        event::Step::Started => continue,
+                        event::Step::Passed(..) => "passed".to_string(),
+                        event::Step::Skipped => "skipped".to_string(),
+                        event::Step::Failed(_, _, _, event::StepError::Panic(info)) => {
+                            format!("failed:{}", info.downcast_ref::<String>().cloned().or_else(|| info.downcast_ref::<&str>().map(|s| (*s).to_string())).unwrap_or_else(|| "<payload is neither String nor &str>".into()))
+                        }
+                        event::Step::Failed(_, _, _, other) => format!("failed-other:{other}"),
+                    };
+                    seen.entry(sc.name.clone()).or_default().push((st.value.clone(), o));
+                }
+                event::Scenario::Finished => *finished.entry(sc.name.clone()).or_default() += 1,
+                _ => {}
+            },
+            _ => {}
+        }
+    }
+    let mut viol = vec![];
+    if run_finished != 1 || !matches!(events.last(), Some(Ok(ev)) if matches!(ev.value, event::Cucumber::Finished)) {
+        viol.push(vio("run-finished", format!("{run_finished} run-Finished events, last event is Finished: {}", matches!(events.last(), Some(Ok(ev)) if matches!(ev.value, event::Cucumber::Finished)))));
+    }
+    for (si, p) in plan.iter().enumerate() {
+        let name = format!("M{si}");
+        let mut exp: Vec<(String, String)> = vec![];
+        for (k, errs) in p {
+            let (_, bad, good, msg) = FALLIBLE[*k];
+            if *errs {
+                exp.push((bad.to_string(), format!("failed:{msg}")));
+                break;
+            }
+            exp.push((good.to_string(), "passed".to_string()));
+        }
+        let got = seen.get(&name).cloned().unwrap_or_default();
+        if got != exp {
+            viol.push(vio("step-results", format!("scenario {name}: step results {got:?}, a step returning Err must be Failed with the error's text and stop the scenario: expected {exp:?}")));
+        }
+        if finished.get(&name).copied().unwrap_or(0) != 1 {
+            viol.push(vio("scenario-finished", format!("scenario {name} got {} Finished events", finished.get(&name).copied().unwrap_or(0))));
+        }
+    }
+    (viol, sample)
 }
